@@ -189,6 +189,7 @@ func c34Gen(rt *rapid.T) *hist.Case {
 	c.Cfg.ClientPIDBase = 1000
 	c.Cfg.WriteBuf = pick(rt, "write-buffer", []int{16, 64, 256, 2048})
 	c.Cfg.WritesPending = int32(pick(rt, "writes-pending", []int{1, 2, 4, 0, 0}))
+	c.Cfg.WriteDelayUS = pick(rt, "write-delay-us", []int{0, 2, 5, 10, 20, 50, 200})
 	nclients := rapid.IntRange(2, 3).Draw(rt, "nclients")
 	for cl := 0; cl < nclients; cl++ {
 		a := hist.Action{Kind: "connect", Client: cl, Version: pick(rt, "version", []byte{5, 5, 4}), Clean: true, AutoAck: true}
@@ -215,7 +216,8 @@ func c34Gen(rt *rapid.T) *hist.Case {
 			var items []hist.BurstItem
 			for cl := 0; cl < nclients; cl++ {
 				if cl == 0 || rapid.Bool().Draw(rt, "in-burst") {
-					items = append(items, hist.BurstItem{Client: cl, Topic: "x/a", QoS: byte(rapid.IntRange(0, 2).Draw(rt, "bq")), Count: rapid.IntRange(1, 6).Draw(rt, "bn"), Pads: pads()})
+					// "y/a" has no subscriber: such publishes only cause direct acknowledgements to their sender
+					items = append(items, hist.BurstItem{Client: cl, Topic: pick(rt, "btopic", []string{"x/a", "x/a", "y/a"}), QoS: byte(rapid.IntRange(0, 2).Draw(rt, "bq")), Count: rapid.IntRange(1, 6).Draw(rt, "bn"), Pads: pads()})
 				}
 			}
 			return hist.Action{Kind: "burst", Burst: items}
@@ -231,7 +233,7 @@ func c34Gen(rt *rapid.T) *hist.Case {
 }
 
 func TestC34(t *testing.T) {
-	r := evid.New("C34", "rapid: 2-3 clients (v5 with Maximum Packet Size absent/40/120, or v3.1.1) subscribed to one filter with QoS 0-2, ClientNetWriteBufferSize 16/64/256/2048, MaximumClientWritesPending 1/2/4/default; single publishes, PINGREQs and bursts in which several clients (always including the subscriber itself) publish 1-6 messages each (QoS 0-2, payload padding 0-200 bytes) that are handed to the broker together, so that acknowledgements written directly by the reader (PUBACK/PUBREC/PUBCOMP/PINGRESP) interleave with publishes queued for the same connection, some of them oversize for the client. Oracle at every quiescent point, per connection: the multiset (type, packet id) of packets reported through OnPacketSent == the multiset decoded from the bytes received (both directions); for every subscriber and message: delivered exactly once, or a drop event (OnPublishDropped / OnQosDropped / OnPacketIDExhausted) for that client and message. Non-trivial = the case mixes direct and queued writes (burst or ping) or contains a refused write; distinct by (history, buffer configuration)")
+	r := evid.New("C34", "rapid: 2-3 clients (v5 with Maximum Packet Size absent/40/120, or v3.1.1) subscribed to one filter with QoS 0-2, ClientNetWriteBufferSize 16/64/256/2048, MaximumClientWritesPending 1/2/4/default, connection write latency 0/2/5/10/20/50/200 us (so that the reader's direct writes arrive while the writer holds the write lock); single publishes, PINGREQs and bursts in which several clients (always including the subscriber itself) publish 1-6 messages each (QoS 0-2, payload padding 0-200 bytes) that are handed to the broker together, so that acknowledgements written directly by the reader (PUBACK/PUBREC/PUBCOMP/PINGRESP) interleave with publishes queued for the same connection, some of them oversize for the client. Oracle at every quiescent point, per connection: the multiset (type, packet id) of packets reported through OnPacketSent == the multiset decoded from the bytes received (both directions); for every subscriber and message: delivered exactly once, or a drop event (OnPublishDropped / OnQosDropped / OnPacketIDExhausted) for that client and message. Non-trivial = the case mixes direct and queued writes (burst or ping) or contains a refused write; distinct by (history, buffer configuration)")
 	r.Assume("bursts hand several clients' packets to the broker at once; their handlers run free (schedule not owned), so which message is dropped can differ between runs; the oracle is an invariant of every schedule, a replay re-executes the history and may take another interleaving")
 	defer r.Finish(t)
 	if evid.ReplayMode() {
